@@ -10,6 +10,38 @@ F64_FUNCS = ['Sin', 'Cos', 'Tan', 'Sinh', 'Cosh', 'Tanh', 'Asin', 'Acos', 'Atan'
 F64_FUNCS2 = ['Pow', 'Root', 'Log', 'Atan2', 'Modulo']
 
 
+DEC_UNARY = {'Abs': 'abs', 'Floor': 'floor', 'Ceil': 'ceil', 'Round': 'round', 'Truncate': 'trunc', 'Sign': 'signum'}
+DEC_FUNCS1 = list(DEC_UNARY) + ['Ln', 'Lb', 'Exp', 'Exp2', 'Sqrt']
+DEC_FUNCS2 = ['Pow', 'Log', 'Root']
+
+
+def dec_fn_ref(kind, v):
+    """eval_decimal function nodes: the rust_decimal operation(s) of that name on the operands in order; Err exactly when one of them is undefined"""
+    from ..summaries import dec_op, dec_fails, dec_const
+    TWO, ONE = dec_const('2'), dec_const('1')
+    if kind in DEC_UNARY:
+        r = dec_op(DEC_UNARY[kind], v[0])
+        return [(True, sem.OKP(lambda x: x[1] == r[1], 'dec_%s(a)' % DEC_UNARY[kind]))]
+    fails = []
+
+    def op(name, *args):
+        f = dec_fails(name, *args)
+        if f is not False: fails.append(f)
+        return dec_op(name, *args)
+    if kind == 'Ln': r = op('ln', v[0])
+    elif kind == 'Exp': r = op('exp', v[0])
+    elif kind == 'Sqrt': r = op('sqrt', v[0])
+    elif kind == 'Exp2': r = op('powd', TWO, v[0])
+    elif kind == 'Lb': r = op('div', op('ln', v[0]), dec_op('ln', TWO))
+    elif kind == 'Pow': r = op('powd', v[0], v[1])
+    elif kind == 'Log': r = op('div', op('ln', v[0]), op('ln', v[1]))
+    elif kind == 'Root': r = op('powd', v[1], op('div', ONE, v[0]))
+    else: raise KeyError(kind)
+    bad = z3.Or(fails) if fails else False
+    if bad is False: return [(True, sem.OKP(lambda x: x[1] == r[1], kind))]
+    return [(z3.Not(bad), sem.OKP(lambda x: x[1] == r[1], 'rust_decimal ' + kind)), (bad, sem.ERR)]
+
+
 def obligations(ctx):
     obs = []
     ocs = (True, False) if ctx.tier == 'thorough' else (True,)
@@ -42,6 +74,12 @@ def obligations(ctx):
                     a = Leaf('number', 'a', va, 'bv'); b = Leaf('number', 'b', vb, 'bv')
                     obs.append(EvalArm('C10', 'number', k, (k, a, b), (lambda v, k=k: sem.number_ref(k, v)), oc=oc, limits={'timeout_ms': 120000},
                                        label='number/%s[%s,%s]/%s' % (k, va[0], vb[0], tag)))
+        # eval_decimal: each function node applies the rust_decimal operation of that name (operations abstract, witnesses confirmed against rust_decimal itself)
+        from ..decimal import DecimalArm, DecLeaf
+        for k in DEC_FUNCS1 + DEC_FUNCS2:
+            leaves = [DecLeaf('a'), DecLeaf('b')] if k in DEC_FUNCS2 else [DecLeaf('a')]
+            ob = DecimalArm('C10', k, (k,) + tuple(leaves), (lambda v, k=k: dec_fn_ref(k, v)), oc=oc, label='decimal/%s/%s' % (k, tag)); ob.differential = True
+            obs.append(ob)
         for k in ['Abs', 'Sign', 'Sqrt', 'Factorial']:
             a = Leaf('i64', 'a', None, 'bv' if k == 'Sqrt' else 'int')
             assume = (a.var <= 25) if k == 'Factorial' else None
@@ -52,9 +90,9 @@ def obligations(ctx):
 def run(ctx):
     results = run_obligations(ctx, obligations(ctx))
     bounds = dict(layer='T: Tokenizer::next of all five tokenizers on every README name, alias and word constant (followed by `(`+any char, by two arbitrary chars, and at end of input; thorough: every one-character near miss); '
-                        'E: every function node of eval_f64 and eval_number (all operand variants) and the exact ones of eval_i64 on arbitrary operands',
+                        'E: every function node of eval_f64 and eval_number (all operand variants) and the exact ones of eval_i64 on arbitrary operands; the function nodes of eval_decimal (abs floor ceil round trunc sgn ln lb exp exp2 sqrt pow log root) over abstract decimals',
                   configurations=['overflow-checks=on'] + (['overflow-checks=off'] if ctx.tier == 'thorough' else []))
     outside = ['numeric accuracy (1e-9) of libm, of the crate\'s Lanczos gamma and Lambert-W iteration, and eval_i64\'s "within 1" for ln/lb/log/exp/root through doubles: transcendental analysis, not decidable with the SMT theories available; the identity of the library function applied and its argument order are decided',
-               'eval_decimal and eval_complex function nodes (operations of rust_decimal / num_complex are abstract): see C07, C08',
+               'eval_complex function nodes (num_complex methods abstract): C08; eval_decimal function nodes are decided up to the identity of the rust_decimal operation applied (its accuracy is the dependency\'s)',
                'arity and argument order at the parser level: C03/C04 token-stream checks', 'x deg / x rad constants: parser level (C04)']
     return finish(ctx, results, bounds, 'symbolic execution from MIR of (T) the tokenizers on keyword templates against the README vocabulary and (E) the function arms of ast::eval against the library function of the same name (uninterpreted functions for libm; floor/ceil/trunc/round/abs/sqrt/sgn/n! exact)', outside)
